@@ -88,12 +88,27 @@ class SizeOracle(walkers.DagWalker):
             # By default, count tree nodes
             measure = SizeOracle.MEASURE_TREE_NODES
 
+        if measure == SizeOracle.MEASURE_DAG_NODES or \
+           measure == SizeOracle.MEASURE_BOOL_DAG:
+            # One traversal with a single set of visited nodes:
+            # collecting at every node the set of all its descendants
+            # (walk_count_dag) is quadratic on deep formulae
+            bool_only = (measure == SizeOracle.MEASURE_BOOL_DAG)
+            seen = set()
+            stack = [formula]
+            while stack:
+                f = stack.pop()
+                if f in seen:
+                    continue
+                seen.add(f)
+                if not (bool_only and f.is_theory_relation()):
+                    stack.extend(f.args())
+            return len(seen)
+
         self.set_walking_measure(measure)
         res = self.walk(formula, measure=measure)
 
-        if measure == SizeOracle.MEASURE_DAG_NODES or \
-           measure == SizeOracle.MEASURE_SYMBOLS or \
-           measure == SizeOracle.MEASURE_BOOL_DAG :
+        if measure == SizeOracle.MEASURE_SYMBOLS:
             return len(res)
         return res
 
